@@ -156,6 +156,7 @@ func maskShape(p *hx.Prng, sector, bsz int) shape {
 }
 
 var hook *bc.Hook
+var noBackup bool // set by runWriter when the block write started without a backup file on disk
 
 // runWriter resets the disk to (old, no backup), runs the writer's operation under the shape's plan and
 // returns the image the writer intended to put on disk.
@@ -173,6 +174,7 @@ func runWriter(ctx context.Context, pr *pair, sh shape) ([]byte, error) {
 	defer reg.Close()
 	hook.Tear = sh.plan
 	hook.LastWrite = nil
+	noBackup = false
 	err = pr.op(ctx, reg)
 	hook.Tear = nil
 	if sh.full {
@@ -192,8 +194,14 @@ func runWriter(ctx context.Context, pr *pair, sh shape) ([]byte, error) {
 		}
 	} else if sh.cowK >= 0 {
 		c, ex, err := pr.env.Cow()
-		if err != nil || !ex {
-			return nil, fmt.Errorf("no backup file after a dead writer: %v", err)
+		if err != nil {
+			return nil, err
+		}
+		if !ex {
+			// the code under test wrote no backup before the block write: leave the disk as it is; the
+			// caller's oracle and the diff with the model report it
+			noBackup = true
+			return img, nil
 		}
 		if sh.cowK < len(c) {
 			c = c[:sh.cowK]
@@ -251,6 +259,9 @@ func oneCase(ctx context.Context, s *hx.Session, p *hx.Prng, pr *pair, sh shape,
 	}
 	s.Op(sh.line, d)
 	s.Hit("shape:" + strings.Fields(sh.line)[1])
+	if _, ex, _ := pr.env.Cow(); !viaChild && !sh.full && !sh.none && (noBackup || (sh.torn && !ex)) {
+		s.Fail("C22/no-backup-on-disk-while-block-write-in-flight", "the writer reached the block write without a backup file of the old image on disk", sh.line)
+	}
 	if viaChild {
 		s.Hit("writer_killed_in_child_process")
 	}
